@@ -39,7 +39,13 @@ SOURCES = [
 ]
 DATA = "/repo/iodata/test/data"
 TEMPLATES = {"freq_water_hf": "water_hf_ccpvtz_freq_qchem.out", "eda_h2o_dimer": "h2o_dimer_eda_qchem5.3.out"}
-CLASSES = list(TEMPLATES)
+# $rem lines are "variable [=] value [comment]" (Q-Chem manual, section on the $rem array): the same frequency job with the job
+# type written with an equals sign / followed by a comment / in capitals
+REM_VARIANTS = {"freq_rem_equals": "jobtype = freq", "freq_rem_equals_tight": "jobtype=freq",
+                "freq_rem_comment": "jobtype                 freq ! vibrational analysis", "freq_rem_capitals": "JOBTYPE                 FREQ"}
+# "freq_after_opt_job": the usual two-step input (optimisation, @@@, frequencies): the log of a first job (the same system, cut
+# before its coupled-perturbed SCF, job type opt) followed by the complete log of the frequency job
+CLASSES = list(TEMPLATES) + list(REM_VARIANTS) + ["freq_after_opt_job"]
 
 QUAD_INDEX = {"XX": 0, "XY": 1, "XZ": 2, "YY": 3, "YZ": 4, "ZZ": 5}     # IOData (2,'c') order: xx xy xz yy yz zz
 
@@ -201,10 +207,20 @@ def _eda(ed):
 
 
 def generate(rng, klass):
-    ed = _perturb.Editor(os.path.join(DATA, TEMPLATES[klass]), rng)
-    (_freq if klass == "freq_water_hf" else _eda)(ed)
-    return {"klass": klass, "text": ed.text(), "expect": ed.expect,
-            "features": [klass, f"template={TEMPLATES[klass]}", f"nedit={ed.nedit}"]}
+    template = TEMPLATES["freq_water_hf" if (klass in REM_VARIANTS or klass == "freq_after_opt_job") else klass]
+    ed = _perturb.Editor(os.path.join(DATA, template), rng)
+    (_freq if template == TEMPLATES["freq_water_hf"] else _eda)(ed)
+    text = ed.text()
+    if klass in REM_VARIANTS:
+        assert text.count("jobtype                 freq\n") == 1
+        text = text.replace("jobtype                 freq\n", REM_VARIANTS[klass] + "\n")
+    if klass == "freq_after_opt_job":
+        head, sep, _ = text.partition(" Calculating MO derivatives via CPSCF")
+        assert sep and "Running Job 1 of 1" in text
+        job1 = head.replace("jobtype                 freq", "jobtype                 opt").replace("Running Job 1 of 1", "Running Job 1 of 2")
+        text = job1 + "\n\n" + text[text.index("Running Job 1 of 1"):].replace("Running Job 1 of 1", "Running Job 2 of 2")
+    return {"klass": klass, "text": text, "expect": ed.expect, "freq": template == TEMPLATES["freq_water_hf"] and klass != "freq_after_opt_job",
+            "features": [klass, f"template={template}", f"nedit={ed.nedit}"]}
 
 
 def write(m):
@@ -212,4 +228,11 @@ def write(m):
 
 
 def expected(m):
-    return _perturb.to_expect(m["expect"], units.RTOL)
+    exp = _perturb.to_expect(m["expect"], units.RTOL)
+    if m.get("freq"):
+        from .base import Exact
+
+        exp[("run_type",)] = Exact("freq")
+        exp[("lot",)] = Exact("hf")
+        exp[("obasis_name",)] = Exact("cc-pvtz")
+    return exp
